@@ -85,8 +85,9 @@ pub fn build_step(
     }
 
     if !step.catches.is_empty() {
-        let mut catch_prev = node.clone();
         for catch in step.catches.iter_mut() {
+            // every list starts from the owning node, otherwise it is chained behind the previous list
+            let mut catch_prev = node.clone();
             for step in catch.steps.iter_mut() {
                 build_step(
                     step,
@@ -101,8 +102,9 @@ pub fn build_step(
         }
     }
     if !step.timeout.is_empty() {
-        let mut timeout_prev = node.clone();
         for timeout in step.timeout.iter_mut() {
+            // every list starts from the owning node, otherwise it is chained behind the previous list
+            let mut timeout_prev = node.clone();
             for step in timeout.steps.iter_mut() {
                 build_step(
                     step,
@@ -184,8 +186,9 @@ pub fn build_act(
     }
 
     if !act.catches.is_empty() {
-        let mut catch_prev = node.clone();
         for catch in act.catches.iter_mut() {
+            // every list starts from the owning node, otherwise it is chained behind the previous list
+            let mut catch_prev = node.clone();
             for step in catch.steps.iter_mut() {
                 build_step(
                     step,
@@ -200,8 +203,9 @@ pub fn build_act(
         }
     }
     if !act.timeout.is_empty() {
-        let mut timeout_prev = node.clone();
         for timeout in act.timeout.iter_mut() {
+            // every list starts from the owning node, otherwise it is chained behind the previous list
+            let mut timeout_prev = node.clone();
             for step in timeout.steps.iter_mut() {
                 build_step(
                     step,
